@@ -315,7 +315,14 @@ def gen_project(rng, size=None, features=None, prob=None):
                                            {"a": "write", "path": "out/g_{b}.txt"}]),
                 "inp": ["{m}"], "out": ["out/g_{b}.txt"]}
         root.append(["pattern", "in/*.src"])
-        root.append(["glob", "in/*.src", tmpl])
+        if rng.random() < 0.4:
+            # a named wildcard restricted by a substitution, next to a file that only the
+            # unrestricted wildcard would match
+            spec["sources"]["in/gnotes.src"] = "not a glob source\n"
+            root.append(["raw", {"a": "glob", "pattern": "in/${*n}.src", "subs": {"n": "g[0-9]"},
+                                 "foreach": tmpl}])
+        else:
+            root.append(["glob", "in/*.src", tmpl])
     # place the steps
     hold_bucket = []
     for sid in order:
@@ -331,6 +338,16 @@ def gen_project(rng, size=None, features=None, prob=None):
         root.append(["hold", hold_bucket])
     if "sub" in spec["plans"]:
         root.append(["plan", "sub"])
+        # A sub-plan that first needs the output of a step of the root plan: it is deferred when
+        # it runs too early and run again later in the same build (its steps are recycled).
+        first = order[0] if order else None
+        if first is not None and step_plan.get(first) == "." and first not in defined_by_step \
+                and spec["steps"][first].get("need", "DEFAULT") == "DEFAULT" \
+                and pr.get("plan_amend", 0.3) > rng.random():
+            # at the end: the steps of the sub-plan are defined first, so the second run of the
+            # sub-plan recycles them
+            spec["plans"]["sub"].append(["raw", {"a": "amend", "inp": [spec["steps"][first]["out"][0]]}])
+            spec["plans"]["sub"].append(["raw", {"a": "read", "path": spec["steps"][first]["out"][0]}])
     if "sub/deep" in spec["plans"]:
         spec["plans"]["sub"].append(["plan", "sub/deep"])
     spec["order"] = order
@@ -556,11 +573,13 @@ def apply_edit(rng, spec, kind, memory):
         spec["sources"][path] = "\n".join(lines) + "\n"
         return f"change includes of {path}"
     if kind == "add_glob_match":
-        if find_item(spec, lambda it: it[0] == "glob") is None:
+        named = find_item(spec, lambda it: it[0] == "raw" and it[1].get("a") == "glob") is not None
+        if find_item(spec, lambda it: it[0] == "glob") is None and not named:
             return None
         n = len([p for p in spec["sources"] if p.startswith("in/")])
-        spec["sources"][f"in/g{n}x.src"] = f"glob source new {n}\n"
-        return "add a glob match"
+        name = f"in/g{n}.src" if named and n < 10 else f"in/g{n}x.src"
+        spec["sources"][name] = f"glob source new {n}\n"
+        return f"add a glob match {name}"
     if kind == "del_glob_match":
         cands = sorted(p for p in spec["sources"] if p.startswith("in/"))
         if len(cands) < 2:
